@@ -41,7 +41,7 @@ def build(r, name, generics=None):
         groups = [[] for _ in range(ngroups)]
         for p in props:
             groups[r.randrange(ngroups)].append(p)
-        v.props = [g for g in groups if g]
+        v.props = [g for g in groups if g] + ([[]] if r.random() < 0.15 else [])
         v.split_attrs = r.choice([0, 1, 2])
         v.attr_order_seed = r.randint(0, 5)
         if r.random() < 0.2:
@@ -55,6 +55,7 @@ def build(r, name, generics=None):
         spec.prefix = "pfx_"
     spec.attr_order_seed = r.randint(0, 6)
     gen.add_noise(r, spec, skip=("props",))
+    gen.maybe_macro_wrap(r, spec)
     gen.ensure_generics_used(r, spec)
     return spec
 
